@@ -42,8 +42,8 @@ def run(ctx):
         body = lf.body
         ctx.order('a', f, ('verify_single_signature', VSS_AGG), ('create_single_signature', CSS))
         ctx.r1('a', RSS, Sink('verify_single_signature', VSS_AGG, 'ok'))
-        ctx.flag_gate('a', f, 'pty:OpenMessage*Record.is_certified')
-        ctx.flag_gate('a', f, 'pty:OpenMessage*Record.is_expired')
+        ctx.flag_gate('a', f, 'pty:OpenMessage*.is_certified')
+        ctx.flag_gate('a', f, 'pty:OpenMessage*.is_expired')
         for c in ctx.call_sites(body, VSS_AGG):
             om = fn_origins(lf, c.args[1], True)
             sg = fn_origins(lf, c.args[2], True)
